@@ -32,7 +32,7 @@ type wclaim struct {
 	target int // for delete claims: id of the target (0 = the permanode)
 }
 
-var c07Vals = []string{"", "a", "b", "c d", "x|y", "é%2=&"}
+var c07Vals = []string{"", "a", "b", "c d", "x|y", "é%2=&", "title", "tag"} // the last two: values that are attribute names
 var c07Attrs = []string{"tag", "title"}
 
 func tokVal(v string) int {
@@ -490,6 +490,38 @@ func runC07(c *ctx) {
 							c.violation(idx, cl, fmt.Sprintf("describe (%s) attr %s at %v: %q, documented semantics give %q [%s]", []string{"with corpus", "index only"}[hi], attr, at, got, want, desc), nil)
 						}
 					}
+				}
+			}
+		}
+		// the claims of the permanode filtered by attribute, from the sorted rows (bare index) and from the corpus: only claims
+		// on that attribute, and all of them that are not deleted
+		for xi, x := range []*index.Index{iw.ix, ix2} {
+			for _, attr := range c07Attrs {
+				got, err := x.AppendClaims(ctxb, nil, cw.pn.BlobRef(), "", attr)
+				c.rep.SpecChecks++
+				path := []string{"corpus", "sorted rows"}[xi]
+				if err != nil {
+					c.violation(idx, "c07-claims-by-attr", fmt.Sprintf("AppendClaims(%s, attr %s): %v [%s]", path, attr, err, desc), nil)
+					continue
+				}
+				gotRef := map[blob.Ref]bool{}
+				bad := ""
+				for _, g := range got {
+					gotRef[g.BlobRef] = true
+					if g.Attr != attr {
+						bad = fmt.Sprintf("returned claim %v on attribute %q (value %q)", g.BlobRef, g.Attr, g.Value)
+					}
+				}
+				if bad == "" && !anyClaimDeleted {
+					for _, cl := range cw.claims {
+						if cl.kind != "delete" && cl.attr == attr && !gotRef[cl.ref] {
+							bad = fmt.Sprintf("claim #%d (%s %s=%q) is missing", cl.id, cl.kind, cl.attr, cl.val)
+						}
+					}
+				}
+				if bad != "" && !reported["claims"+path] {
+					reported["claims"+path] = true
+					c.violation(idx, "c07-claims-by-attr", fmt.Sprintf("AppendClaims from the %s with attribute filter %q: %s [%s]", path, attr, bad, desc), nil)
 				}
 			}
 		}
